@@ -198,6 +198,8 @@ func main() {
 		respMode()
 		return
 	}
+	transportVersions()
+	selectVersions()
 	r := gen.New()
 	word := func() string { return "w" + hex.EncodeToString(gen.Bytes(r, 1+r.Intn(6))) }
 	n := 6
